@@ -12,8 +12,8 @@ import (
 	"sync/atomic"
 	"syscall"
 	"testing"
-	"time"
 	"testing/synctest"
+	"time"
 
 	"verifharness/kit"
 )
